@@ -164,8 +164,10 @@ def get_operation_count(layer, input_shape):
 
     kernel_h, kernel_w, _, _ = weight.shape
 
+    # with groups > 1 each filter only sees channels_i / groups input channels
     operation_count = (
-        height_o * width_o * channels_o * kernel_h * kernel_w * channels_i)
+        height_o * width_o * channels_o * kernel_h * kernel_w *
+        (channels_i // getattr(layer, "groups", 1)))
 
   elif layer.__class__.__name__ in ["QConv1D", "Conv1D"]:
     output_shape = layer.compute_output_shape(input_shape)
